@@ -76,10 +76,18 @@ OmScaleV(n, x) == <<n * x[1], n * x[2], n * x[3], n * x[4]>>
 \* coefficient of w^k in x*y:  SUM_i x_i * y_(k-i), where w^(k+4) = -w^k
 OmT(x, y, k, i) == IF i <= k THEN OmC(x, i) * OmC(y, k - i) ELSE -(OmC(x, i) * OmC(y, k + 4 - i))
 OmP(x, y, k) == OmT(x, y, k, 0) + OmT(x, y, k, 1) + OmT(x, y, k, 2) + OmT(x, y, k, 3)
-OmMulV(x, y) == <<OmP(x, y, 3), OmP(x, y, 2), OmP(x, y, 1), OmP(x, y, 0)>>
+OmMulDef(x, y) == <<OmP(x, y, 3), OmP(x, y, 2), OmP(x, y, 1), OmP(x, y, 0)>>
+\* the same bilinear map written out (fast); ZRingsGen checks OmMulV = OmMulDef = Cyclo!MulG on a box that contains
+\* the basis 1, w, w^2, w^3 (two bilinear maps that agree on all pairs of basis elements are equal)
+OmMulV(x, y) == <<x[1] * y[4] + x[2] * y[3] + x[3] * y[2] + x[4] * y[1],
+                  x[2] * y[4] + x[3] * y[3] + x[4] * y[2] - x[1] * y[1],
+                  x[3] * y[4] + x[4] * y[3] - x[1] * y[2] - x[2] * y[1],
+                  x[4] * y[4] - x[1] * y[3] - x[2] * y[2] - x[3] * y[1]>>
 \* conj: w^i -> w^-i = -w^(4-i) (i = 1..3);   adj2: sqrt2 -> -sqrt2 is w -> -w, so w^i -> (-1)^i w^i
-OmConjV(z) == <<-OmC(z, 1), -OmC(z, 2), -OmC(z, 3), OmC(z, 0)>>
-OmAdj2V(z) == <<-OmC(z, 3), OmC(z, 2), -OmC(z, 1), OmC(z, 0)>>
+OmConjV(z) == <<-z[3], -z[2], -z[1], z[4]>>
+OmAdj2V(z) == <<-z[1], z[2], -z[3], z[4]>>
+OmConjDef(z) == <<-OmC(z, 1), -OmC(z, 2), -OmC(z, 3), OmC(z, 0)>>
+OmAdj2Def(z) == <<-OmC(z, 3), OmC(z, 2), -OmC(z, 1), OmC(z, 0)>>
 OmAdd(x, y) == F2(OmAddV, x, y)
 OmNeg(x) == F1(OmNegV, x)
 OmSub(x, y) == F2(OmSubV, x, y)
@@ -183,12 +191,22 @@ M3CanonV(R) == IF M3IsZeroV(R) THEN M3(0, R.e)
                ELSE IF M3ReducibleV(R) THEN F1(M3CanonV, M3(R.k - 1, TLCEval([n \in 1..9 |-> <<R.e[n][2], R.e[n][1] \div 2>>])))
                ELSE R
 M3Canon(R) == F1(M3CanonV, R)
-\* adjoint representation: R_ij = 1/2 Tr(s_i U s_j U^+),  U = e / sqrt2^k  ==>  numerators over sqrt2^(2k + 2)
+\* adjoint representation: R_ij = 1/2 Tr(s_i U s_j U^+),  U = e / sqrt2^k  ==>  numerators over sqrt2^(2k + 2).
+\* With B_j = U s_j U^+ (numerator b = <<b11, b12, b21, b22>>):
+\*   Tr(X b) = b21 + b12,   Tr(Y b) = i (b12 - b21),   Tr(Z b) = b11 - b22
 Pauli(i) == CASE i = 1 -> M2X [] i = 2 -> M2Y [] i = 3 -> M2Z
-SO3Tr(A, i, j) == M2Trace(M2Mul(M2Mul(Pauli(i), A), M2Mul(Pauli(j), M2DaggerV(A))))
-SO3RefV(A) == M3(2 * A.k + 2, TLCEval([n \in 1..9 |-> OmToS2(SO3Tr(A, ((n - 1) \div 3) + 1, ((n - 1) % 3) + 1))]))
+SO3ColV(A, j) == M2Mul(M2MulV(A, Pauli(j)), M2DaggerV(A)).e
+TrPauliV(i, b) == CASE i = 1 -> OmAddV(b[3], b[2])
+                    [] i = 2 -> OmMulV(OmI, OmSubV(b[2], b[3]))
+                    [] i = 3 -> OmSubV(b[1], b[4])
+SO3NumV(b1, b2, b3) == <<TrPauliV(1, b1), TrPauliV(1, b2), TrPauliV(1, b3), TrPauliV(2, b1), TrPauliV(2, b2), TrPauliV(2, b3),
+                         TrPauliV(3, b1), TrPauliV(3, b2), TrPauliV(3, b3)>>
+SO3TrV(A) == F3(SO3NumV, SO3ColV(A, 1), SO3ColV(A, 2), SO3ColV(A, 3))          \* the nine traces, elements of Z[omega]
+SO3OfTr(k, t) == M3(2 * k + 2, <<OmToS2V(t[1]), OmToS2V(t[2]), OmToS2V(t[3]), OmToS2V(t[4]), OmToS2V(t[5]), OmToS2V(t[6]),
+                                  OmToS2V(t[7]), OmToS2V(t[8]), OmToS2V(t[9])>>)
+SO3RefV(A) == F2(SO3OfTr, A.k, SO3TrV(A))
 SO3Ref(A) == F1(SO3RefV, A)
-SO3AllRealV(A) == \A i \in 1..3, j \in 1..3 : OmIsReal(SO3Tr(A, i, j))
+SO3AllRealV(A) == \A t \in {SO3TrV(A)} : \A n \in 1..9 : OmIsRealV(t[n])       \* the traces are real
 SO3AllReal(A) == F1(SO3AllRealV, A)
 
 (* ------------------------------ number theory -------------------------- *)
